@@ -2,6 +2,7 @@
 # Build the framework from files on disk only (offline): Coq development (full .vo build),
 # Rust harness against /repo's current tree with hooks enabled.
 set -e
+set -o pipefail
 cd "$(dirname "$0")/.."
 export CARGO_NET_OFFLINE=true
 ulimit -s unlimited 2>/dev/null || true
